@@ -1,5 +1,6 @@
 import NutilsVerif.Proofs.C10b
 import NutilsVerif.Proofs.C10c
+import NutilsVerif.Proofs.C10d
 /-!
 # C10 — topology operations conserve the domain: property theorems
 
@@ -209,5 +210,52 @@ theorem trim1d_wf (ndiv m : Nat) (lv : List Int) (hl : lv.length = 2 ^ m + 1) : 
 -- non-vacuity
 example : trim1 3 2 [-3, -1, 1, 3, 5] = .kids (.kids .empty (.cut true 4)) .full := by decide
 example : noZeroPair [-3, -1, 1, 3, 5] := by simp [noZeroPair]
+
+/-! ## (d) axis arithmetic of structured topologies: refinement, slices and boundary layers of (periodic) directions -/
+
+/-- **axis_refined_children.**  Uniform refinement of a direction of a structured topology (`DimAxis.refined`), for EVERY
+start, length and modulus (periodic or sliced-periodic directions included): the axis has twice as many cells, and elements
+`2e`, `2e+1` of the refined axis are the two children (cell indices `2·index`, `2·index + 1`) of element `e`. -/
+theorem axis_refined_children (a : Axis) (hd : a.isdim = true) (e c : Int) (hc0 : 0 ≤ c) (hc1 : c ≤ 1) :
+    a.refined.len = 2 * a.len ∧ a.refined.map (2 * e + c) = 2 * a.map e + c :=
+  ⟨Axis.len_refined_dim a hd, Axis.map_refined_dim a hd e c hc0 hc1⟩
+
+/-- **axis_refined_boundary_child.**  Refinement of a boundary layer (`IntAxis.refined` of an axis with one cell): the refined
+layer still has one cell, and it is the child ON THE SIDE OF THE LAYER of the cell that owned the coarse layer — for every
+modulus, i.e. also at the ends of a slice of a periodic direction.  (Needs the doubled modulus: `axis_stale_modulus`.) -/
+theorem axis_refined_boundary_child (a : Axis) (hd : a.isdim = false) (hl : a.len = 1) :
+    a.refined.len = 1 ∧ a.refined.map 0 = 2 * a.map 0 + a.sideInt := by
+  refine ⟨by rw [Axis.len_refined_int a hd, hl]; rfl, ?_⟩
+  simpa using Axis.map_refined_int a hd 0
+
+/-- **axis_refined_layer.**  The same for interface layers of any length: every second cell of the refined layer is the child
+on the side of the layer of the corresponding coarse cell. -/
+theorem axis_refined_layer (a : Axis) (hd : a.isdim = false) (e : Int) :
+    a.refined.len = 2 * a.len - 1 ∧ a.refined.map (2 * e) = 2 * a.map e + a.sideInt :=
+  ⟨Axis.len_refined_int a hd, Axis.map_refined_int a hd e⟩
+
+/-- **axis_slice.**  A slice `[start, stop)` of a direction enumerates exactly the cells `start … stop-1` of that direction
+(modulus kept), and its two boundary layers sit on its first cell (low side) and its last cell (high side). -/
+theorem axis_slice (a : Axis) (s t e : Int) :
+    (a.getitem s t).len = t - s ∧ (a.getitem s t).map e = a.map (s + e) ∧
+    (a.getitem s t).boundaries.map (fun b => (b.map 0, b.flag, b.len)) =
+      [((a.getitem s t).map 0, false, 1), ((a.getitem s t).map ((a.getitem s t).len - 1), true, 1)] := by
+  have h1 : a.i + s + e = a.i + (s + e) := by omega
+  have h2 : a.i + s + (a.i + t - (a.i + s) - 1) = a.i + t - 1 := by omega
+  refine ⟨by simp only [Axis.getitem, Axis.len]; omega, ?_, ?_⟩
+  · simp only [Axis.getitem, Axis.map, h1]
+  · simp only [Axis.boundaries, Axis.getitem, Axis.map, Axis.len, Bool.false_eq_true, if_false, List.map_cons, List.map_nil, h2,
+      Int.add_zero]
+    split <;> simp <;> omega
+
+/-- the doubled modulus in `IntAxis.refined` is necessary: with the unrefined modulus the refined right end layer of the
+slice `[2, 3)` of a periodic direction of 4 cells lands on fine cell 1 instead of fine cell 5 -/
+theorem axis_stale_modulus :
+    let a : Axis := { i := 2, j := 3, mod := 4, isdim := false, flag := true }
+    a.refined.map 0 = 5 ∧ ({ a.refined with mod := a.mod } : Axis).map 0 = 1 := by
+  decide
+
+-- non-vacuity: a slice of a periodic direction, its right end layer, refined
+example : ((({ i := 0, j := 4, mod := 4, isdim := true, flag := true } : Axis).getitem 1 3).boundaries.map fun b => b.refined.cells) = [[2], [5]] := by decide
 
 end NutilsVerif.C10
